@@ -358,12 +358,12 @@ func c14Body() func(h []dsim.Rec) {
 	return func(h []dsim.Rec) {
 		links := e.chanLinks(events)
 		type chInfo struct {
-			ch      *gomavlib.Channel
-			openT   time.Duration
-			closeT  time.Duration
-			closed  bool
-			err     error
-			link    *link
+			ch     *gomavlib.Channel
+			openT  time.Duration
+			closeT time.Duration
+			closed bool
+			err    error
+			link   *link
 		}
 		var chans []*chInfo
 		byCh := map[*gomavlib.Channel]*chInfo{}
